@@ -18,9 +18,9 @@ import (
 
 func init() {
 	eng.Register(&eng.Check{
-		ID: "C14",
-		Rule: "E5 environment-choice explorer on the real code through the generated map-order seam (every reflect.Value.MapKeys call of the two packages answers with a permutation chosen by the explorer): string-keyed maps of n=2..4 entries (thorough ..5) with EVERY assignment of {T,F,E} to the entries' body outcome x any/all x 4 binding modes, map-in-map and list-of-maps nestings, and Filter.Execute over maps; at every seam call ALL n! permutations are explored, depth-first over the sequence of calls (later calls depend on earlier answers through early exit); oracle: one outcome class (true/false/error) per (expression, datum) over all answer sequences, for filters the same kept-key set or the same error-ness; replaying a recorded answer sequence twice must give identical observations. states = (expression, datum) cases, transitions = executions (one per answer sequence); non-trivial = case in which >=2 distinct answer sequences were explored. Sampling complement (not deciding): every case is also repeated 32 times without the seam under the runtime's own random order.",
-		Assumptions: []string{"the seam covers reflect.Value.MapKeys calls in /repo's two packages (generated from the working tree; other map-iteration constructs are listed by the generator and only covered by the sampling complement)", "bounded map sizes"},
+		ID:           "C14",
+		Rule:         "E5 environment-choice explorer on the real code through the generated map-order seam (every reflect.Value.MapKeys call of the two packages answers with a permutation chosen by the explorer): string-keyed maps of n=2..4 entries (thorough ..5) with EVERY assignment of {T,F,E} to the entries' body outcome x any/all x 4 binding modes, map-in-map and list-of-maps nestings, and Filter.Execute over maps; at every seam call ALL n! permutations are explored, depth-first over the sequence of calls (later calls depend on earlier answers through early exit); oracle: one outcome class (true/false/error) per (expression, datum) over all answer sequences, for filters the same kept-key set or the same error-ness; replaying a recorded answer sequence twice must give identical observations. states = (expression, datum) cases, transitions = executions (one per answer sequence); non-trivial = case in which >=2 distinct answer sequences were explored. A history probe re-evaluates every case with a fresh evaluator after all other cases of the shard have run (same-typed data of other shapes, absent leaves under map / struct / slice parents) and demands the first outcome. Sampling complement (not deciding): every case is also repeated 32 times without the seam under the runtime's own random order.",
+		Assumptions:  []string{"the seam covers reflect.Value.MapKeys calls in /repo's two packages (generated from the working tree; other map-iteration constructs are listed by the generator and only covered by the sampling complement)", "bounded map sizes"},
 		Run:          runC14,
 		NeedsOverlay: "full",
 	})
@@ -90,6 +90,14 @@ func c14Cases(thorough bool) []c14Case {
 			}
 		}
 	}
+	// determinism beyond iteration order: the same expression on same-typed data whose absent leaf sits under a map
+	// (not present) resp. under a struct / slice (error); re-evaluated after all other cases have run (see the history probe)
+	for _, parent := range []*Node{NMap(TStr, TAny, str("q"), one), NStruct(F{Name: "Q", V: one}), NSlice(TAny, one), NMap(TStr, TAny)} {
+		d := NMap(TStr, TAny, str("m"), parent, str("l"), NSlice(TAny, parent))
+		for _, src := range []string{"m.zz == 1", "m.zz != 1", "m.zz is empty", "l.0.zz == 1", "any l as x { x.zz != 1 }", "all m.zz as x { x == 1 }"} {
+			out = append(out, c14Case{src, d, "absent-leaf"})
+		}
+	}
 	// nested: map of maps, list of maps, map of lists
 	for _, patO := range patterns(3, 2)[lenPrefix(3, 2):] {
 		for _, patI := range patterns(3, 2)[lenPrefix(3, 2):] {
@@ -124,6 +132,11 @@ func runC14(c *eng.Ctx) {
 	cases := c14Cases(c.Thorough())
 	c.MaxOf("cases", int64(len(cases)))
 	seamReached := false
+	type firstObs struct {
+		ci  int
+		cls int
+	}
+	var firsts []firstObs
 	for ci, cs := range cases {
 		if !c.Mine(ci) || !c.Want("c", ci) {
 			continue
@@ -172,8 +185,18 @@ func runC14(c *eng.Ctx) {
 					name = v3name[k]
 				}
 				// replay determinism: the same answer sequence must reproduce the same observation
-				r1 := vrt.RunChoices(seq, func(ch *vrt.Chooser) { vrt.Env = ch; o := observe(ev, datum); vrt.Env = nil; ch.Sites = append(ch.Sites, o.String()) })
-				r2 := vrt.RunChoices(seq, func(ch *vrt.Chooser) { vrt.Env = ch; o := observe(ev, datum); vrt.Env = nil; ch.Sites = append(ch.Sites, o.String()) })
+				r1 := vrt.RunChoices(seq, func(ch *vrt.Chooser) {
+					vrt.Env = ch
+					o := observe(ev, datum)
+					vrt.Env = nil
+					ch.Sites = append(ch.Sites, o.String())
+				})
+				r2 := vrt.RunChoices(seq, func(ch *vrt.Chooser) {
+					vrt.Env = ch
+					o := observe(ev, datum)
+					vrt.Env = nil
+					ch.Sites = append(ch.Sites, o.String())
+				})
 				if r1.Sites[len(r1.Sites)-1] != r2.Sites[len(r2.Sites)-1] {
 					c.Note("replay of an answer sequence was not deterministic for " + cs.src)
 				}
@@ -191,6 +214,7 @@ func runC14(c *eng.Ctx) {
 		}
 		// sampling complement: free repetitions under the runtime's random order (not the deciding step)
 		base := cls3(observe(ev, datum))
+		firsts = append(firsts, firstObs{ci, base})
 		for r := 0; r < 32; r++ {
 			if k := cls3(observe(ev, datum)); k != base {
 				c.Violate(eng.Violation{Kind: "outcome-varies-between-repetitions", Key: key, Coords: co, Expected: "same outcome on every repetition", Observed: "outcomes differ between free repetitions"})
@@ -199,6 +223,25 @@ func runC14(c *eng.Ctx) {
 		}
 		if len(c.R.Samples) < 3 && execs > 2 {
 			c.Sample(map[string]any{"expression": cs.src, "datum": cs.datum.String(), "answer_sequences": execs, "first_sequence": firstChoices})
+		}
+	}
+	// history probe: after every other case of this shard has been evaluated (different expressions, same-typed data of
+	// other shapes), each case must still give its first outcome with a fresh evaluator
+	if !c.Replaying() {
+		for _, f := range firsts {
+			cs := cases[f.ci]
+			ev, err := bexpr.CreateEvaluator(cs.src)
+			if err != nil {
+				continue
+			}
+			again := cls3(observe(ev, Build(cs.datum).Interface()))
+			c.R.Evaluations++
+			if again != f.cls && again >= 0 && f.cls >= 0 {
+				c.Violate(eng.Violation{Kind: "outcome-depends-on-earlier-calls", Key: "expr=" + cs.src + " | datum=" + cs.datum.String(), Coords: map[string]int{"c": f.ci},
+					Expected: v3name[f.cls] + " (first evaluation in this process)", Observed: v3name[again] + " after the other cases had been evaluated"})
+			} else {
+				c.Count("history-probe")
+			}
 		}
 	}
 	// Filter.Execute over maps: same kept-key set or same error-ness under every order
